@@ -29,6 +29,7 @@ THEOREMS = [
     "c03_handed_only_on_success",
     "c03_refusing_writer_never_success",
     "c03_sequence_each_call_fresh",
+    "c03_connections_independent",
     "c03_helpers_are_aliases",
     "c03_default_list",
 ]
@@ -41,7 +42,10 @@ RULE = (
     "(falsy / twin / source-constant / format-hostile versions and error texts, falsy results and error data, peers that close either "
     "direction, duplicate answers, 1..300 foreign messages of 8 kinds before the answer, timeouts 0/1/2 ticks and answers one tick "
     "around every poll boundary and the deadline, 3 tie orders, tracking entry point without client / with a hook-less client); "
-    "sequences of 2-3 calls on the same streams and tracked client; real send_initialize(_with_client_tracking) under the "
+    "sequences of 2-3 calls on the same streams and tracked client, the same failure repeated 2-4 times then a success, 2-3 "
+    "connections alive at once (alternately / concurrently); options x every failure mode, preferred versions and error members of "
+    "every JSON type, the caller's stream objects raising every exception class (also one without a text) from each operation, "
+    "text that looks like syntax; a third of all cases (every scenario kind at least once) with the root logger at DEBUG; real send_initialize(_with_client_tracking) under the "
     "virtual-time loop vs clientInit/trackedInit; slow-writer: the same call with a write stream of buffer 0 / 1 (full or empty) "
     "whose reader takes the notification 1, T-1, T, T+1, 2T ticks after answering or never, vs clientInitW; non-trivial = distinct (list, preferred, answer, tracking)"
 )
@@ -159,7 +163,85 @@ class ClientInit(Suite):
                     eff = sup if sup is not None else V.server_supported()
                     if ans["k"] == "version" and ans["s"] in eff and c["track"] in (True, False):
                         out.append(dict(c, track=not c["track"]))
-        return out + self.extras(rng, budget)
+        return V.assign_debug(out + self.extras(rng, budget) + self.extras2(rng, budget), self.static_kind, ctx=ctx, name=self.name)
+
+    @classmethod
+    def static_kind(cls, case):
+        if "steps" in case:
+            return ("seq", len(case["steps"]), case.get("conns"), bool(case.get("concurrent")),
+                    tuple(s_["ans"]["k"] + ("/" + s_["raise_on"]["where"] if s_.get("raise_on") else "") for s_ in case["steps"]))
+        ro = case.get("raise_on") or {}
+        return (case["ans"]["k"], cls.entry(case), cls.scenario({k_: v_ for k_, v_ in case.items() if k_ != "debug"}), ro.get("where"), ro.get("cls"), case.get("wbuf"), bool(case.get("filler")),
+                str(case.get("take")), type(case.get("pref")).__name__, bool(case.get("sup_tuple")),
+                type(case["ans"].get("code")).__name__, type(case["ans"].get("msg")).__name__)
+
+    def extras2(self, rng, budget):
+        """Hardening sweep 2 (classes C, E, F, G): options x every failure mode, caller- and peer-supplied positions of every JSON
+        type, every exception class out of the caller's stream objects, text that looks like syntax."""
+        from .c04 import SYNTAX_TEXT
+        quick = budget == "quick"
+        out = []
+        k = 0
+
+        def add(sup, pref, ans, **kw):
+            nonlocal k
+            k += 1
+            c = {"sup": sup, "pref": pref, "ans": dict(ans), "D": 2048, "at": AT_CHOICES[k % len(AT_CHOICES)],
+                 "tie": TIES[k % 3], "track": (True, False, True, False, "none", "bare")[k % 6]}
+            c.update(kw)
+            out.append(c)
+
+        L = ["2025-06-18", "2025-03-26", "1999-12-31"]
+        good, foreign = {"k": "version", "s": "2025-03-26"}, {"k": "version", "s": "2031-01-01"}
+        failures = [foreign, {"k": "silence"}, {"k": "closed"}, {"k": "malformed", "shape": "version-zero"}, {"k": "malformed", "shape": "result-empty-list"},
+                    {"k": "rpc", "code": -32602, "msg": "Unsupported protocol version"}, {"k": "rpc", "code": -32603, "msg": ""},
+                    {"k": "rpc", "code": 0, "msg": None}]
+        # C. every option at a non-default value x EVERY failure mode (and the success): timeout (incl. 0 / tiny / default), preferred
+        #    version, caller's list vs none, tracking entry points, write side
+        for sup in (None, L):
+            for pref in (None, "2025-03-26", "1999-12-31", V.OUTSIDE, ""):
+                for D in (None, 0, 1, 2, 512, 2048):
+                    for ans in [good] + failures:
+                        at = 1 if D in (None, 2, 512, 2048) else 10
+                        for track in (True, False, "none", "bare"):
+                            if quick and (k % 3) and track in ("none", "bare"):
+                                k += 1
+                                continue
+                            add(sup, pref, ans, D=D, at=at, track=track)
+                for ans in failures:
+                    add(sup, pref, ans, wbuf=0, take=1)
+                    add(sup, pref, ans, wbuf=1, filler=1, take=None)
+                    add(sup, pref, ans, pref_none=pref is None, sup_tuple=sup is not None)
+        # E. the preferred version of every JSON type (it is then simply not in the list); the list handed over as a tuple;
+        #    error members of every JSON type
+        for pref in (0, 7, 1.5, True, False, [], ["2025-06-18"], {}, {"v": 1}, "2025-06-18 ", "2025-06-18\n"):
+            for sup in (None, L, ["1999-12-31"]):
+                for ans in (good, {"k": "version", "s": sup[0] if sup else "2025-06-18"}, foreign, {"k": "silence"}):
+                    add(sup, pref, ans)
+        for sup in (L, ["1999-12-31"], ["2025-03-26", "2025-06-18"]):
+            for pref in (None, sup[-1]):
+                for ans in [good, {"k": "version", "s": sup[-1]}] + failures:
+                    add(sup, pref, ans, sup_tuple=True)
+        for code in ("-32602", -32602.0, True, False, None, [], {}, 2**70, -32602):
+            for msg in ("protocol version", "boom", 7, None, [], {"protocol version": 1}, True, ""):
+                add(L, None, {"k": "rpc", "code": code, "msg": msg})
+        # F. the caller's stream objects raise — every exception class, also one whose text cannot be produced — from the send of the
+        #    request, from the send of the notification, from receive
+        for cls_ in V.EXC_CLASSES:
+            for where in ("send-request", "send-notification", "receive"):
+                for ans in (good, foreign, {"k": "rpc", "code": -32603, "msg": "boom"}):
+                    for track in (True, False):
+                        add(L, None, ans, raise_on={"where": where, "cls": cls_}, track=track, at=10)
+        # G. text that looks like syntax: as answered versions, as members of the caller's list, in error messages
+        for t in SYNTAX_TEXT:
+            add(L, None, {"k": "version", "s": t})
+            add([t, "2025-06-18"], None, {"k": "version", "s": t}, track=True)
+            add([t, "2025-06-18"], t, {"k": "version", "s": "2025-06-18"})
+            add(["2025-06-18"], t, {"k": "version", "s": t})
+            for code in (-32602, -32008):
+                add(L, None, {"k": "rpc", "code": code, "msg": t})
+                add(L, None, {"k": "rpc", "code": code, "msg": t + " (code: -32602) JSON-RPC Error: protocol version"})
+        return out
 
     def extras(self, rng, budget):
         """Hardening sweep: falsy / twin / magic / format-hostile values, limits, rarely taken branches, unusual but valid peers,
@@ -255,18 +337,34 @@ class ClientInit(Suite):
             return {"k": "rpc", "code": a["code"], "msg": a.get("msg")}
         return {"k": a["k"]}
 
+    @staticmethod
+    def model_pref(case):
+        p = case.get("pref")
+        return p if isinstance(p, str) else None  # a preferred version that is not a string is in no list of versions
+
     def model_line(self, case):
+        a = case["ans"]
+        if a["k"] == "rpc" and (type(a.get("code")) is not int or not (a.get("msg") is None or isinstance(a.get("msg"), str))):
+            return None  # error members outside JSON-RPC's types: oracle only (no success, no notification)
+        ro = case.get("raise_on")
+        if ro and (ro["where"] != "send-notification" or ro["cls"] == "TimeoutError"):
+            return None  # the caller's own stream object fails before / while waiting: oracle only
+        if ro:
+            return {"m": "version", "op": "clientw", "sup": case["sup"], "pref": self.model_pref(case), "ans": self.model_answer(case),
+                    "take": "refuses"}
         D = case.get("D")
         if case["ans"]["k"] != "silence" and case.get("at", 10) == (DEFAULT_D if D is None else D):
             return None  # an answer at the very instant of the deadline may go either way (C01): oracle only
         if case.get("take") == "refuses":
-            return {"m": "version", "op": "clientw", "sup": case["sup"], "pref": case["pref"], "ans": self.model_answer(case),
+            return {"m": "version", "op": "clientw", "sup": case["sup"], "pref": self.model_pref(case), "ans": self.model_answer(case),
                     "take": "refuses"}
-        return {"m": "version", "op": "client", "sup": case["sup"], "pref": case["pref"], "ans": self.model_answer(case)}
+        return {"m": "version", "op": "client", "sup": case["sup"], "pref": self.model_pref(case), "ans": self.model_answer(case)}
 
     def compare(self, case, o, m):
         if o.get("harness"):
             return None
+        if case.get("raise_on") and m["outcome"] == "transport" and o["outcome"] in ("stream-raised", "invalid", "transport"):
+            o = dict(o, outcome="transport")  # whichever exception the caller's stream raised (or its failing text produced)
         if o["outcome"] != m["outcome"]:
             return "outcome class differs"
         if o["outcome"] == "ok" and (o.get("v") != m.get("v") or o.get("type") != "InitializeResult"):
@@ -286,8 +384,10 @@ class ClientInit(Suite):
         pref = case["pref"]
         ans = case["ans"]
         trace = o["trace"]
-        want_prop = pref if (pref and pref in sup) else sup[0]
+        want_prop = pref if (isinstance(pref, str) and pref and pref in sup) else sup[0]
         inits = [e for e in trace if e["w"] == "initialize"]
+        if (case.get("raise_on") or {}).get("where") == "send-request" and not trace and o["outcome"] != "ok":
+            return None  # the caller's stream refused the request itself: nothing was written, nothing succeeded
         if len(inits) != 1 or not trace or trace[0]["w"] != "initialize" or any(e["w"] == "other" for e in trace):
             return ("request-count", f"writes are {canon([e for e in trace if e['w'] != 'answered'])}: not exactly one initialize "
                     f"request first", {"first": {"w": "initialize", "v": want_prop}})
@@ -326,7 +426,7 @@ class ClientInit(Suite):
             return ("initialized-after-failure", f"answer {canon(ans)} ended in {o['outcome']} but the initialized notification was "
                     f"written ({canon(trace)})", {"initialized": 0})
         D = DEFAULT_D if case.get("D") is None else case["D"]
-        if ans["k"] == "version" and ans["s"] not in sup and o["outcome"] != "mismatch" and case.get("at", 10) < D:
+        if ans["k"] == "version" and ans["s"] not in sup and o["outcome"] != "mismatch" and case.get("at", 10) < D and not case.get("raise_on"):
             return ("foreign-version-not-mismatch", f"supported {sup}: answered version {ans['s']!r} ended in {o['outcome']} "
                     f"{o.get('exc', '')}", {"outcome": "mismatch"})
         return None
@@ -368,7 +468,19 @@ class ClientInit(Suite):
             tags.append("result:" + x)
         if "data" in case["ans"]:
             tags.append("error-data")
-        return ("/" + "+".join(tags[:2])) if tags else ""
+        if case.get("raise_on"):
+            cls_ = case["raise_on"]["cls"]
+            tags.insert(0, "stream-raises:" + case["raise_on"]["where"] + ":" + (cls_ if cls_ in ("Unprintable", "TimeoutError") else "other-class"))
+        if case.get("pref") is not None and not isinstance(case["pref"], str):
+            tags.insert(0, "preferred:" + type(case["pref"]).__name__)
+        if case.get("sup_tuple"):
+            tags.insert(0, "list-as-tuple")
+        if case["ans"]["k"] == "rpc" and type(case["ans"].get("code")) is not int:
+            tags.insert(0, "error-code:" + type(case["ans"].get("code")).__name__)
+
+        dbg = [t for t in tags if t == "DEBUG-logging"]
+        tags = [t for t in tags if t != "DEBUG-logging"][:2] + dbg
+        return ("/" + "+".join(tags)) if tags else ""
 
     def shrink_candidates(self, case):
         sup = case["sup"]
@@ -475,7 +587,7 @@ class SlowWriter(ClientInit):
         ctx.exhaustive_parts.append(
             "slow-writer: write stream buffer 0 / 1 full / 1 empty / 1 full from the start / 100 with 99 and 100 foreign messages x peer "
             "taking the notification 1, T-1, T, T+1, 2T ticks after its answer, never, or closing that direction x 3 orders at equal instants")
-        return out
+        return V.assign_debug(out, self.static_kind, ctx=ctx, name=self.name)
 
     @staticmethod
     def write_side(case):
@@ -575,22 +687,74 @@ class ClientSequence(ClientInit):
                 stp.setdefault("at", 10)
                 stp["tie"] = TIES[(k + i) % 3]
             out.append({"steps": st, "share_list": True})
+        # D. the SAME failure 2, 3, 4 times in a row on one connection, then a success (and the tracked mode then follows it)
+        fails = [pool[3], pool[6], pool[8], pool[9], pool[10], pool[11],
+                 {"ans": {"k": "version", "s": "2025-03-26"}, "raise_on": {"where": "send-notification", "cls": "Unprintable"}},
+                 {"ans": {"k": "version", "s": "2025-03-26"}, "raise_on": {"where": "receive", "cls": "KeyError"}},
+                 {"ans": {"k": "version", "s": "2025-03-26"}, "raise_on": {"where": "send-request", "cls": "OSError"}}]
+        for f in fails:
+            for reps in (2, 3, 4):
+                for ok_ in (pool[0], pool[1]):
+                    k += 1
+                    st = [dict(s_, sup=L1, pref=None) for s_ in [f] * reps + [ok_]]
+                    for i, stp in enumerate(st):
+                        stp.setdefault("D", 2048)
+                        stp.setdefault("at", 10)
+                        stp["tie"] = TIES[(k + i) % 3]
+                    out.append({"steps": st, "share_list": True})
+                    out.append({"steps": [dict(pool[1], sup=L1, pref=None, D=2048, at=10, tie="events")] + [dict(x) for x in st], "share_list": True})
+        # B. two and three connections (streams + tracked client each) alive in one process, used alternately and concurrently
+        short = [pool[0], pool[1], pool[3], pool[6], pool[9]]
+        for x in short:
+            for y in short:
+                for z in short[:3]:
+                    k += 1
+                    st = [dict(x, sup=L1, pref=None, conn=0), dict(y, sup=L2 if k % 2 else L1, pref=None, conn=1), dict(z, sup=L1, pref=None, conn=0),
+                          dict(x, sup=L2 if k % 2 else L1, pref=None, conn=1)]
+                    if k % 2:  # L2 has other members: answer with its own
+                        for stp in st:
+                            if stp["sup"] is L2 and stp["ans"]["k"] == "version" and stp["ans"]["s"] in L1:
+                                stp["ans"] = {"k": "version", "s": L2[0] if stp["ans"]["s"] == L1[0] else L2[-1]}
+                    for i, stp in enumerate(st):
+                        stp.setdefault("D", 2048)
+                        stp.setdefault("at", 10)
+                        stp["tie"] = TIES[(k + i) % 3]
+                    out.append({"steps": st, "conns": 2})
+                k += 1
+                pair = [dict(x, sup=L1, pref=None, conn=0, D=x.get("D", 2048), at=x.get("at", 10), tie=TIES[k % 3]),
+                        dict(y, sup=L1, pref="2024-11-05", conn=1, D=y.get("D", 2048), at=y.get("at", 12), tie=TIES[k % 3]),
+                        dict(x, sup=L2, pref=None, conn=2, D=x.get("D", 2048), at=700, tie=TIES[k % 3])]
+                if pair[2]["ans"]["k"] == "version" and pair[2]["ans"]["s"] in L1:
+                    pair[2]["ans"] = {"k": "version", "s": L2[0]}
+                out.append({"steps": pair, "conns": 3, "concurrent": True})
         ctx.exhaustive_parts.append(
             "client-sequence: every ordered pair of 12 step kinds (two listed versions, duplicate answer, foreign version, late answer of the "
             "previous attempt, silence, answer one tick late, errors, malformed) x 5 list pairings x 3 preferred pairings on one pair of "
-            "streams and one tracked client")
-        return out
+            "streams and one tracked client; 9 failure kinds repeated 2-4 times then a success; 2 and 3 connections alive at once, "
+            "alternately and concurrently")
+        return V.assign_debug(out, self.static_kind, ctx=ctx, name=self.name)
 
     def impl_batch(self, cases):
         return V.run_client_seq(cases)
 
     def model_line(self, case):
+        def ans(st):
+            ro = st.get("raise_on")
+            if ro:  # the caller's stream raised: a failed call that leaves the tracked client alone (transcript not compared)
+                return {"k": "malformed"} if ro["where"] == "send-notification" else {"k": "closed"}
+            return self.model_answer(st)
+
         return {"m": "version", "op": "clientseq",
-                "steps": [{"sup": st["sup"], "pref": st["pref"], "ans": self.model_answer(st)} for st in case["steps"]]}
+                "steps": [{"sup": st["sup"], "pref": self.model_pref(st), "ans": ans(st), "conn": st.get("conn", 0)} for st in case["steps"]]}
 
     def compare(self, case, o, m):
         for st, so, sm in zip(case["steps"], o["steps"], m["steps"]):
-            d = ClientInit.compare(self, dict(st, track=True), so, sm)
+            if so is None:
+                return "a call did not finish"
+            if st.get("raise_on"):
+                d = None if (so["outcome"] != "ok" and canon(so.get("tracked")) == canon(sm.get("tracked"))) else "call on a raising stream"
+            else:
+                d = ClientInit.compare(self, dict(st, track=True), so, sm)
             if d:
                 return d
             if so.get("sup_after") is not None:
@@ -599,6 +763,8 @@ class ClientSequence(ClientInit):
 
     def oracle(self, case, o):
         for i, (st, so) in enumerate(zip(case["steps"], o["steps"])):
+            if so is None:
+                continue
             # the list as the caller handed it to THIS call
             cur = dict(st, track=True)
             v = ClientInit.oracle(self, cur, so)
@@ -609,13 +775,17 @@ class ClientSequence(ClientInit):
                 key, what, exp = v
                 if i > 0:
                     key += "-in-sequence"
+                    if case.get("conns"):
+                        what = (f"[{case['conns']} connections alive in one process, {'concurrently' if case.get('concurrent') else 'alternately'}; "
+                                f"this call is on connection {st.get('conn', 0)}] " + what)
                     what = (f"call no. {i + 1} on the same streams and tracked client (earlier calls: "
                             f"{', '.join(canon(s['ans']) + ' -> ' + str(p.get('outcome')) for s, p in zip(case['steps'][:i], o['steps'][:i]))}): " + what)
                 return (key, what, exp)
         return None
 
     def kind(self, case, o):
-        return "sequence/" + ">".join(str(s.get("outcome")) for s in o["steps"])
+        tag = ("%d-connections%s/" % (case["conns"], "-concurrent" if case.get("concurrent") else "")) if case.get("conns") else ""
+        return "sequence/" + tag + ">".join(str((s or {}).get("outcome")) for s in o["steps"])
 
     def shrink_candidates(self, case):
         st = case["steps"]
